@@ -547,3 +547,38 @@ func vc_C02_rotateunion3d() {
 	tol := vfTol(1e-5, 1e-6)
 	vfAssert(vfImplies(in, vfAnd(vfAnd(bb.Min.X <= p.X+tol, p.X <= bb.Max.X+tol), vfAnd(vfAnd(bb.Min.Y <= p.Y+tol, p.Y <= bb.Max.Y+tol), vfAnd(bb.Min.Z <= p.Z+tol, p.Z <= bb.Max.Z+tol)))), "RotateUnion3D: every solid point lies in the bounding box")
 }
+
+// VoxelSDF3: at every lattice corner the wrapper returns the wrapped shape's own
+// value there. Concrete boxes (one with sides that are not whole
+// multiples of the resolution) and cell counts; the wrapped shape's values are
+// arbitrary (one symbolic value per corner).
+type vfRec3 struct {
+	bb Box3
+	q  []v3.Vec
+	v  []float64
+}
+
+func (l *vfRec3) BoundingBox() Box3 { return l.bb }
+func (l *vfRec3) Evaluate(p v3.Vec) float64 {
+	v := vfRealN("vox", len(l.v))
+	vfAssume(vfAnd(v >= -100, v <= 100))
+	l.q = append(l.q, p)
+	l.v = append(l.v, v)
+	return v
+}
+
+func vc_C02_voxel() {
+	sizes := []v3.Vec{{X: 8, Y: 6.5, Z: 3.5}, {X: 2, Y: 2, Z: 2}, {X: 2, Y: 3, Z: 1.7}} // every side at least one resolution step (fewer is outside the domain: 0 cells)
+	sz := sizes[vfCase("box", len(sizes))]
+	cells := []int{4, 5}[vfCase("cells", 2)]
+	f := &vfRec3{bb: Box3{Min: v3.Vec{X: -1, Y: 2, Z: 0.5}, Max: v3.Vec{X: -1 + sz.X, Y: 2 + sz.Y, Z: 0.5 + sz.Z}}}
+	vox := NewVoxelSDF3(f, cells, nil)
+	vfReach("voxels built")
+	n := len(f.q)
+	vfAssert(n >= 8, "the wrapped shape is sampled at least at the eight corners of its box")
+	tol := 1e-9
+	for i := 0; i < n; i++ {
+		r := vox.Evaluate(f.q[i])
+		vfAssert(vfAnd(r-f.v[i] <= tol, f.v[i]-r <= tol), "at a lattice corner the voxel wrapper returns the wrapped shape's value")
+	}
+}
